@@ -2,7 +2,7 @@
 //
 // Case: cfg = [arch (0 x86-32, 1 x86-64, 2 AArch64), flags]   ops = one emitter call or one node-list edit each (see Kind).
 //   flags: 1 kValidateAssembler on every path, 2 (+1) kValidateIntermediate on Builder/Compiler, 4 logger attached,
-//          8 kOptimizeForSize, 16 kOptimizedAlign
+//          8 kOptimizeForSize, 16 kOptimizedAlign, 32/64 (two bits): 1..3 labels created through the CodeHolder before any emitter is attached
 // Paths:  A  Assembler, calls in natural order (per-call errors)
 //         B  Builder  + edits, finalize()          C  Compiler (physical registers only) + the same edits, finalize()
 //         R  fresh Assembler fed with the harness's own list of calls in node order (= the edited sequence); stops at the
@@ -839,6 +839,7 @@ rc::Gen<vh::Case> vh_gen(const vh::Opts&) {
     if (*vh::irange<int>(0, 9) == 0) flags |= 4;
     if (*vh::irange<int>(0, 5) == 0) flags |= 8;
     if (*vh::irange<int>(0, 3) == 0) flags |= 16;
+    if (*vh::irange<int>(0, 3) == 0) flags |= 32 * *vh::irange<int>(1, 3);   // labels in the CodeHolder that no path's emitter created
     c.cfg = {arch, flags};
     bool edits = *vh::irange<int>(0, 99) < 45;
     int nlab = *vh::irange<int>(0, 6);
@@ -861,6 +862,9 @@ struct Path {
     Environment env(arch == 0 ? Arch::kX86 : arch == 1 ? Arch::kX64 : Arch::kAArch64);
     code.init(env);
     if (flags & 4) code.set_logger(&logger);
+    // flags bits 5..6: 1..3 labels that exist in the CodeHolder before the emitter is attached (created by the holder itself, as a prologue
+    // written by another emitter would leave them): label ids of the emitter's own labels then start above 0 and a Builder's label-node table has a gap
+    for (int i = 0; i < ((flags >> 5) & 3); i++) { uint32_t lid = 0; (void)code.new_label_id(Out(lid)); }
     if (arch < 2) {
       if (type == 0) em.reset(new x86::Assembler(&code)); else if (type == 1) em.reset(new x86::Builder(&code)); else em.reset(new x86::Compiler(&code));
     } else {
@@ -887,7 +891,8 @@ static Label make_label(BaseEmitter& e, const LabelSpec& s) {
 
 void vh_run(const vh::Case& cs, vh::Ctx& ctx) {
   int arch = cs.cfg.size() > 0 ? int(uint64_t(cs.cfg[0]) % 3) : 1;
-  int flags = cs.cfg.size() > 1 ? int(uint64_t(cs.cfg[1]) & 31) : 0;
+  int flags = cs.cfg.size() > 1 ? int(uint64_t(cs.cfg[1]) & 127) : 0;
+  if (flags & 96) ctx.cls("foreign_labels_in_holder");
   if (!(flags & 1)) flags &= ~2;
   const int mode = arch == 0 ? 32 : 64;
   const char* arch_name = arch == 0 ? "x86" : arch == 1 ? "x64" : "a64";
